@@ -108,6 +108,9 @@ def gen(shard, tier):
                 for sub in itertools.combinations(names, k):
                     for vals in itertools.product(*[OPTS[a] for a in sub]):
                         yield {'kind': 'ident', 'comp': comp, 'opts': dict(zip(sub, vals))}, k, True
+            # three options at once: every triple of option names with the first listed value of each
+            for sub in itertools.combinations(names, 3):
+                yield {'kind': 'ident', 'comp': comp, 'opts': {a: OPTS[a][0] for a in sub}}, 3, True
     elif shard['kind'] == 'estimate':
         names = list(OPTS)
         for k in (0, 1, 2):
@@ -256,6 +259,18 @@ def check(case, ctx):
         st3, ref = lib.call(p.isotopic_distribution, dict(ec), **opts)
         if st3 != 'ok' or [tuple(x) for x in ref] != [tuple(x) for x in dist]:
             ctx.fail('estimate-vs-own-composition', ref[:4] if st3 == 'ok' else ref, dist[:4], call=call)
+        # the returned list is the caller's: after the caller edits it, the same request gives the same pattern again
+        keep = [tuple(x) for x in dist]
+        try:
+            dist.reverse()
+            dist.pop()
+        except Exception:
+            pass
+        st4, again = lib.call(p.estimate_isotopic_distribution, case['mass'], **opts)
+        ctx.evals += 1
+        if st4 != 'ok' or [tuple(x) for x in again] != keep:
+            ctx.fail('estimate-after-editing-previous-result', keep[:4], again[:4] if st4 == 'ok' else again, call=call)
+        dist = list(keep)
         masses = [m for m, _ in dist]
         if masses != sorted(masses):
             ctx.fail('not-sorted', sorted(masses), masses, call=call)
